@@ -183,31 +183,56 @@ def run_backend(name, smt2, budget, model_vars=()):
     return "unknown", dt, {}, (out + r.stderr)[:400]
 
 
-def solve_one(ob, budget):
-    """ob: dict with name, smt2, theory ('int'|'str'), model_vars.  Fills status/backend/seconds/model."""
+def solve_one(ob, budget, confirm=None):
+    """ob: dict with name, smt2, theory ('int'|'str'), model_vars.  Fills status/backend/seconds/model.
+
+    `unsat` for a VC that contains quantifiers must be reproduced by a second, different back end
+    (z3 5.1 returned an unsound `unsat` on a quantifier + sequence query during construction);
+    confirm=2 asks for a second opinion on every VC (thorough tier) and records whether it came.
+    A `sat` after an `unsat` (or vice versa) is a conflict: no verdict (checker fault)."""
     order = ORDER.get(ob.get("theory", "int"), ORDER["int"])
+    quantified = ("(forall " in ob["smt2"]) or ("(exists " in ob["smt2"])
+    need = 2 if quantified else 1
+    want = max(need, confirm or 1)
     notes = []
     total = 0.0
-    # first round: short slice on each back end, then the remaining budget
     rounds = [(b, min(budget, max(2.0, budget / 4.0))) for b in order] + [(b, budget) for b in order]
-    status = "unknown"
-    tried = set()
+    unsat_by = []
+    done_full = set()
     for i, (b, t) in enumerate(rounds):
-        if i >= len(order) and (b, "full") in tried:
+        if b in unsat_by or (b, "full") in done_full:
             continue
+        if unsat_by and len(unsat_by) >= need and i >= len(order) and len(unsat_by) < want:
+            # optional confirmation: only the short round is spent on it
+            break
         st, dt, model, note = run_backend(b, ob["smt2"], t, ob.get("model_vars", ()))
         total += dt
-        if st in ("unsat", "sat"):
-            ob.update(status=st, backend=b, seconds=round(total, 3), model=model)
-            return ob
-        notes.append("%s:%s:%s" % (b, st, note.replace("\n", " ")[:120]))
         if t >= budget:
-            tried.add((b, "full"))
-    ob.update(status=status, backend="none", seconds=round(total, 3), model={}, notes=notes)
+            done_full.add((b, "full"))
+        if st == "sat":
+            if unsat_by:
+                ob.update(status="conflict", backend="%s:unsat vs %s:sat" % (unsat_by[0], b),
+                          seconds=round(total, 3), model=model, notes=notes)
+                return ob
+            ob.update(status="sat", backend=b, seconds=round(total, 3), model=model)
+            return ob
+        if st == "unsat":
+            unsat_by.append(b)
+            if len(unsat_by) >= want:
+                break
+            continue
+        notes.append("%s:%s:%s" % (b, st, note.replace("\n", " ")[:120]))
+    if len(unsat_by) >= need:
+        ob.update(status="unsat", backend="+".join(unsat_by), seconds=round(total, 3), model={},
+                  confirmed=len(unsat_by) >= 2)
+        return ob
+    if unsat_by:
+        notes.append("quantified VC: unsat from %s was not reproduced by a second back end" % unsat_by[0])
+    ob.update(status="unknown", backend="none", seconds=round(total, 3), model={}, notes=notes)
     return ob
 
 
-def solve_all(obs, budget=10.0, jobs=None):
+def solve_all(obs, budget=10.0, jobs=None, confirm=None):
     jobs = jobs or min(16, (os.cpu_count() or 4))
     with ThreadPoolExecutor(max_workers=jobs) as ex:
-        return list(ex.map(lambda o: solve_one(o, budget), obs))
+        return list(ex.map(lambda o: solve_one(o, budget, confirm), obs))
